@@ -1,13 +1,14 @@
 CONSTANTS
-  OptPoolSel = "six"
-  OptArgSel = "three"
-  MaxLen = 2
+  OptPoolSel = "alias"
+  OptArgSel = "two"
+  MaxLen = 1
   Steps = 1
-  ClassSel = "three"
+  ClassSel = "alias"
   FirstSel = "four"
   CollectMode = "bound"
 INIT Init
 NEXT Next
+INVARIANT HandlersPreserved
 INVARIANT Explained
 INVARIANT ShippedUsageFine
 INVARIANT Emit
